@@ -6,17 +6,21 @@ import shutil
 from . import core, tlc
 
 
-def judge(env, cases, chunk=60, workers=8):
-    """cases: list of dict(id, prog, out(list of str), halt). Returns {id: verdict dict or None}."""
+def judge(env, cases, chunk=60, workers=8, module="SemCheck", fields=None):
+    """cases: list of dict(id, prog, out(list of str), halt). Returns {id: verdict dict or None}.
+    module / fields: another trace-validation module of spec/lang and the record fields it reads."""
     chunks = [cases[i:i + chunk] for i in range(0, len(cases), chunk)]
 
     def run(ch):
         wd = env.tmpdir("sem")
         with open(os.path.join(wd, "cases.ndjson"), "w") as f:
             for c in ch:
-                f.write(json.dumps({"id": c["id"], "prog": c["prog"], "out": c["out"], "halt": c["halt"],
-                                    "out2": c.get("out2", c["out"]), "halt2": c.get("halt2", c["halt"])}) + "\n")
-        r = tlc.run(wd, "SemCheck", "SemCheck.cfg", ["lang", "lib"], workers=1, timeout=1800, case_prefix="@@OUT ", heap="4g")
+                if fields:
+                    f.write(json.dumps({k: c[k] for k in fields}) + "\n")
+                else:
+                    f.write(json.dumps({"id": c["id"], "prog": c["prog"], "out": c["out"], "halt": c["halt"],
+                                        "out2": c.get("out2", c["out"]), "halt2": c.get("halt2", c["halt"])}) + "\n")
+        r = tlc.run(wd, module, module + ".cfg", ["lang", "lib"], workers=1, timeout=1800, case_prefix="@@OUT ", heap="4g")
         out = {o["id"]: o for o in r["cases"]}
         err = None
         if not (r["finished"] and not r["error"]):
